@@ -28,12 +28,14 @@ pub fn cmd_rice(a: &Args) {
         let n = sizes[i % sizes.len()];
         let warm = warms[(i / 3) % warms.len()];
         let maxp = maxps[(i / 5) % maxps.len()];
-        let fam = i % 6;
+        let fam = i % 8;
+        // the designed order ties need few stretches (every pair must tie at once)
+        let n = if fam >= 6 { [128usize, 256, 128, 192][(i / 8) % 4] } else { n };
         let mut sig = vec![0i32; n];
         // magnitudes per 64-sample stretch from a small alphabet: exact cost ties between partition orders and
         // between adjacent parameters are the rule, not the exception
         let alpha: [i32; 8] = [0, 1, 2, 3, 5, 8, 21, 300];
-        let stretch = [64usize, 32, 128, 64, 16, 64][fam];
+        let stretch = [64usize, 32, 128, 64, 16, 64, 64, 64][fam];
         let mut level = alpha[rng.gen_range(0..alpha.len())];
         for t in 0..n {
             if t % stretch == 0 {
@@ -50,6 +52,27 @@ pub fn cmd_rice(a: &Args) {
                 4 => rng.gen_range(-level..=level),
                 _ => [0, level, -level][rng.gen_range(0..3)],
             };
+        }
+        if fam >= 6 {
+            // designed ORDER ties: folded value 2 costs 3 bits under parameters 0, 1 and 2 alike; a 64-sample stretch
+            // with k zeros prefers parameter 0 (1 bit less per zero than parameter 1), one with j folded fives
+            // prefers 1 (2 bits less per five than parameter 0): merging an A and a B stretch costs min(2j, k) - 4
+            // more or less than keeping them apart - exactly 0 for (j, k) = (2, 4..), (2.., 4)
+            for t in 0..n {
+                sig[t] = 1;
+            }
+            for st in 0..n / 64 {
+                let a_type = if fam == 6 { st % 2 == 0 } else { rng.gen_bool(0.5) };
+                let cnt = if a_type { [4usize, 4, 5, 3][rng.gen_range(0..4)] } else { [2usize, 2, 3, 1][rng.gen_range(0..4)] };
+                let mut placed = 0;
+                while placed < cnt {
+                    let t = st * 64 + rng.gen_range(0..64);
+                    if sig[t] == 1 && t >= warm {
+                        sig[t] = if a_type { 0 } else { -3 };
+                        placed += 1;
+                    }
+                }
+            }
         }
         for s in sig.iter_mut().take(warm) {
             *s = 0;
